@@ -1216,14 +1216,16 @@ func (t *TableCache) ApplyCacheUpdate(update cacheUpdate) error {
 				if err != nil {
 					return err
 				}
-				t.eventProcessor.AddEvent(updateEvent, table, old, new)
+				// handlers get their own copy of the previous row: readers may
+				// still hold the object the cache handed out
+				t.eventProcessor.AddEvent(updateEvent, table, model.Clone(old), new)
 			case new == nil:
 				t.logger.V(5).Info("deleting model", "table", table, "uuid", uuid, "model", old)
 				err := tCache.Delete(uuid)
 				if err != nil {
 					return err
 				}
-				t.eventProcessor.AddEvent(deleteEvent, table, old, nil)
+				t.eventProcessor.AddEvent(deleteEvent, table, model.Clone(old), nil)
 			}
 			return nil
 		})
